@@ -57,6 +57,7 @@ type Contract struct {
 	LoopStep  map[int][]*Clause
 	AtSend    []*AtSend
 	AtCall    []*AtSend // Field = callee name
+	AtRead    []*AtSend // Field = name of a struct field: checked just before every load of that field
 	Props     []string
 	Inline    bool
 	Trusted   bool
@@ -140,7 +141,7 @@ func (c *Contract) nilable(name string, isRecv bool) bool {
 	return c.Nilable[name]
 }
 
-var clauseKeywords = map[string]bool{"effect": true, "consumes": true, "produces": true, "nosafety": true, "invariant": true, "history": true, "atsend": true, "atcall": true, "nilable": true, "pure": true, "defines": true, "requires": true, "captures": true, "ensures": true, "modifies": true, "loop": true, "property": true,
+var clauseKeywords = map[string]bool{"effect": true, "consumes": true, "produces": true, "nosafety": true, "invariant": true, "history": true, "atsend": true, "atcall": true, "atread": true, "nilable": true, "pure": true, "defines": true, "requires": true, "captures": true, "ensures": true, "modifies": true, "loop": true, "property": true,
 	"inline": true, "trusted": true, "nilrecv": true, "maypanic": true, "label": true, "replay": true, "topensures": true}
 
 func (e *Engine) loadContracts(dir string, pkg *types.Package) error {
@@ -614,6 +615,11 @@ func (e *Engine) loadContractFile(path string, pkg *types.Package) error {
 			lastClause = &Clause{Text: strings.TrimSpace(strings.TrimPrefix(rest, fields[1])), Label: pendingLabel}
 			cur.AtCall = append(cur.AtCall, &AtSend{Field: fields[1], Clause: lastClause})
 			pendingLabel = ""
+		case "atread":
+			// atread <field name> <spec>: checked in the function's state just before each load of a struct field of that name
+			lastClause = &Clause{Text: strings.TrimSpace(strings.TrimPrefix(rest, fields[1])), Label: pendingLabel}
+			cur.AtRead = append(cur.AtRead, &AtSend{Field: fields[1], Clause: lastClause})
+			pendingLabel = ""
 		case "consumes":
 			cur.Consumes = append(cur.Consumes, splitTop(rest, ',')...)
 			lastClause = nil
@@ -699,6 +705,9 @@ func (e *Engine) finishContracts() error {
 			all = append(all, as.Clause)
 		}
 		for _, as := range c.AtCall {
+			all = append(all, as.Clause)
+		}
+		for _, as := range c.AtRead {
 			all = append(all, as.Clause)
 		}
 		for _, cl := range all {
@@ -844,6 +853,7 @@ func mergeContracts(old, c *Contract) {
 	old.Defines = append(old.Defines, c.Defines...)
 	old.AtSend = append(old.AtSend, c.AtSend...)
 	old.AtCall = append(old.AtCall, c.AtCall...)
+	old.AtRead = append(old.AtRead, c.AtRead...)
 	old.Consumes = append(old.Consumes, c.Consumes...)
 	old.Produces = append(old.Produces, c.Produces...)
 	for k, v := range c.LoopInv {
